@@ -18,6 +18,7 @@ pub mod heap {
     pub use crate::mmtk::{MMAPPER, VM_MAP};
     pub use crate::util::heap::layout::VerifCreateFreeListResult as CreateFreeListResult;
     pub use crate::util::heap::layout::{Map32, Map64};
+    pub use crate::util::heap::layout::VerifChunkStateMmapper as ChunkStateMmapper;
     pub use crate::util::heap::gc_trigger::MemBalancerTrigger;
     pub use crate::util::heap::monotonepageresource::MonotonePageResource;
     pub use crate::util::heap::pageresource::{
